@@ -380,8 +380,10 @@ func genC21(seed uint64) *Plan {
 		if g.thenEOF {
 			pl.Steps = append(pl.Steps, Step{GapUS: int64(1000 + r.Intn(100_000)), Kind: "peer_close", Peer: 0})
 		}
-		// long enough for every timer of the victim session (hold 30 s) to have fired
-		pl.Steps = append(pl.Steps, Step{GapUS: 40_000_000, Kind: "checkpoint", Label: "after_garbage"})
+		// long enough for every timer of the victim session to have fired: an incomplete message
+		// without EOF may legitimately be waited for until the hold timer expires (negotiated 30 s in
+		// Established/OpenConfirm, the large OpenSent value of RFC 4271 8.2.2 - 4 minutes - before)
+		pl.Steps = append(pl.Steps, Step{GapUS: 250_000_000, Kind: "checkpoint", Label: "after_garbage"})
 		// a fresh, clean connection from the same peer must be served
 		pl.Steps = append(pl.Steps, Step{GapUS: 1000, Kind: "peer_auto", Peer: 0, On: true})
 		pl.Steps = append(pl.Steps, Step{GapUS: 1000, Kind: "connect", Peer: 0, Label: "clean_reconnect"})
@@ -441,7 +443,7 @@ func (o *c21Oracle) AfterStep(w *World, i int, s *Step) {
 		if c != nil && !c.ClosedByDUT() {
 			// a message that merely looks odd may legitimately keep the session (bit flips can yield valid messages): only judged for unambiguous classes
 			if o.rawStep.Code != 0 || o.rawStep.Malformed == "truncated_then_eof" || o.rawStep.Malformed == "noise" {
-				w.Env.Violate("C21", "session_not_torn_down", "%s: 40 s after the bytes were delivered the DUT still has not closed the connection", o.rawStep.Label)
+				w.Env.Violate("C21", "session_not_torn_down", "%s: 250 s after the bytes were delivered the DUT still has not closed the connection", o.rawStep.Label)
 			}
 		}
 		if o.rawStep.Code != 0 && c != nil {
